@@ -403,6 +403,11 @@ impl<'a, 'b> Add<&'b Substance> for &'a Substance {
 
     #[allow(clippy::suspicious_arithmetic_impl)]
     fn add(self, other: &'b Substance) -> Self::Output {
+        // The amounts are the weights of the mixture. A dimensioned
+        // weight would end up in the dimension of every property.
+        if !self.amount.dimless() || !other.amount.dimless() {
+            return Err("Substances can only be added in dimensionless amounts".to_string());
+        }
         let res = Substance {
             amount: Number::one(),
             properties: Arc::new(Properties {
